@@ -294,10 +294,24 @@ class Evaluator:
         if k in ("BinaryOperator", "CompoundAssignOperator"):
             op = n["op"]
             l, r = f.node(n["lhs"]), f.node(n["rhs"])
-            if op == "&&":
-                return 1 if (self.ev(l) and self.ev(r)) else 0
-            if op == "||":
-                return 1 if (self.ev(l) or self.ev(r)) else 0
+            if op in ("&&", "||"):
+                # clang folds both operands in short-circuit blocks of their own before the block that holds the whole
+                # expression (return a && f(); x = a || g();): take them from there, never fold a call twice
+                def operand(x0):
+                    cache = self.__dict__.get("_cache") or {}
+                    x = x0
+                    while x is not None:
+                        if x["id"] in cache and not isinstance(cache[x["id"]], Unknown):
+                            return cache[x["id"]]
+                        if x["k"] in TRANSPARENT and len(x.get("c", [])) == 1:
+                            x = x["c"][0]
+                            continue
+                        break
+                    return self.ev(x0)
+                lv = operand(l)
+                if op == "&&":
+                    return (1 if operand(r) else 0) if lv else 0
+                return 1 if lv else (1 if operand(r) else 0)
             if op == ",":
                 self.ev(l)
                 return self.ev(r)
